@@ -142,18 +142,22 @@ def sim_config(pid):
 def apalache_c01():
     """C01_Pos /\\ C01_Mode over unbounded integer coordinates: Init => IndInv and IndInv /\\ Next => IndInv'
     (specs/MotionInd.tla), discharged symbolically by Apalache. Absence or a time-out of the tool is reported, not failed."""
+    return apalache_inductive("MotionInd", "coordinates and offsets: all integers; 3 axes")
+
+
+def apalache_inductive(module, what):
     import shutil
     import subprocess
     if shutil.which("apalache-mc") is None:
         return {"status": "apalache-mc not found"}
     d = os.path.join(workdir(), "apalache")
     os.makedirs(d, exist_ok=True)
-    shutil.copy(os.path.join(os.path.dirname(os.path.dirname(os.path.abspath(__file__))), "specs", "MotionInd.tla"), d)
+    shutil.copy(os.path.join(os.path.dirname(os.path.dirname(os.path.abspath(__file__))), "specs", module + ".tla"), d)
     res = {}
     t0 = time.time()
     for name, args in (("base", ["--init=Init", "--inv=IndInv", "--length=0"]), ("step", ["--init=IndInit", "--inv=IndInv", "--length=1"])):
         try:
-            p = subprocess.run(["apalache-mc", "check"] + args + ["--out-dir=" + os.path.join(d, name), "MotionInd.tla"], cwd=d,
+            p = subprocess.run(["apalache-mc", "check"] + args + ["--out-dir=" + os.path.join(d, name), module + ".tla"], cwd=d,
                                stdout=subprocess.PIPE, stderr=subprocess.STDOUT, text=True, timeout=240)
         except subprocess.TimeoutExpired:
             res[name] = "timeout"
@@ -161,11 +165,11 @@ def apalache_c01():
         if "EXITCODE: OK" in p.stdout:
             res[name] = "OK"
         elif "The outcome is: Error" in p.stdout:
-            raise MachineryError("Apalache: the inductive invariant of MotionInd fails (%s)\n%s" % (name, p.stdout[-1500:]))
+            raise MachineryError("Apalache: the inductive invariant of %s fails (%s)\n%s" % (module, name, p.stdout[-1500:]))
         else:
             res[name] = "unknown: " + p.stdout[-200:]
     res["wall_s"] = round(time.time() - t0, 1)
-    res["obligations"] = "Init => IndInv ; IndInv /\\ Next => IndInv'  (coordinates and offsets: all integers; 3 axes)"
+    res["obligations"] = "Init => IndInv ; IndInv /\\ Next => IndInv'  (%s)" % what
     return res
 
 
@@ -485,6 +489,10 @@ def run(pid, tier, replay_path=None):
             cov["states"] += r.distinct
             cov["transitions"] += r.generated
         cov["exhaustive"] = True
+        if pid in ("C02", "C06"):
+            cov["apalache_inductive_invariant"] = apalache_inductive(
+                "InterlockInd", "powers, tool numbers and their bounds: all integers; mirror of tool/coolant state, no halt or tool-change "
+                                "line while the machine's tool or coolant is on")
         if pid == "C01":
             cov["apalache_inductive_invariant"] = apalache_c01()
             # beyond the listed properties: the bundled analyser (printrun.gcoder) against the same reference interpreter
